@@ -50,7 +50,9 @@ func (l *Line) Insert(pos int, chars ...rune) {
 
 	switch {
 	case l.Len() == 0:
-		*l = chars
+		// A copy: the characters might be those of a kill
+		// buffer, which later edits of the line must not change.
+		*l = append([]rune(nil), chars...)
 	case pos < l.Len():
 		forward := string((*l)[pos:])
 		cut := string(append((*l)[:pos], chars...))
